@@ -2,15 +2,19 @@ CONFIG = {
     "level": "proof",
     "passes": [
         {"name": "crypt", "pkg": "c02", "bin": "c02", "driver": "drv_c02"},
+        {"name": "login", "pkg": "c02", "bin": "c02", "driver": "drv_c02", "args": ["-mode", "login"], "reset_prefix": "reset"},
     ],
     "trusted_base": [
+        "pass `login`: the harness's own bookkeeping of which plaintext the stored hash was made from (tags accept/reject by effective DES key) and libc crypt(3) on the hash read back with PasswdQueryPasswd at the moment of each login - both independent of the model",
         "libc crypt(3) (libxcrypt, DES) through cgo: used only as the oracle P-hat for clause (a) and for CheckPasswd on well-formed hashes, never as proof",
         "hand-written textbook DES-crypt specification PttVerif/Model/C02Spec.lean (FIPS 46 IP, FP, E, P, PC-1, PC-2, S1-S8, shift schedule; crypt(3) salt perturbation, 25 iterations, base-64 packing): a wrong entry fails fcrypt_eq_crypt3 / a table theorem on the unchanged tree and disagrees with libc in the `spec` ops",
         "math/rand: rand.Seed(k) makes the global source reproduce rand.New(rand.NewSource(k)) (checked at harness start); the model takes the drawn number as a parameter",
     ],
     "modelled": ["crypt.Fcrypt/cFcrypt", "crypt.desSetKey", "crypt.body/dEncrypt", "crypt.PermOp/HPermOp/c2l/l2c",
-                 "cmbbs.GenPasswd", "cmbbs.CheckPasswd"],
+                 "cmbbs.GenPasswd", "cmbbs.CheckPasswd",
+                 "ptt.LoginQuery / ptt.Login (password decision only) / ptt.CheckPasswd / ptt.ChangePasswd, cmbbs.PasswdUpdatePasswd / PasswdQueryPasswd (as: the store user -> hash, Model/C02Login.lean)"],
     "assumptions": [
+        "login histories: the users driven exist, have valid ids, pairwise distinct ignoring case, and are not 'guest' (whose login skips the password); session bookkeeping of ptt.Login is not modelled (property C03) - only a handful of full logins per run because the session table holds 31; one process, one caller at a time",
         "clause (a) is proved in full against the hand-written textbook Spec.crypt3 (fcrypt_eq_crypt3); that Spec.crypt3 is what libc crypt(3) computes is not a theorem: it is checked on every run by evaluating Spec.crypt3 (driver op `spec`), the implementation and libc on every generated alphabet-salt pair",
         "clause (d) 'rejected for any other effective key' is not a theorem (DES-crypt collisions exist in principle); it is sampled by P-hat (all 56 single-bit key flips of sampled keys) and never presented as proof",
     ],
